@@ -21,10 +21,10 @@ theorem insertConstant_safe {b : Bool} {st : St} (h : Good b st) (n : Bytes) (v 
       split
       · exact ⟨by simp, fun st' x e => by
           cases e
-          exact ⟨⟨h.inv, h.sm, h.gt, h.lt, tableOk_set h.gtab hreg _, h.ltab, h.inFile, h.top⟩, Ext.refl _⟩⟩
+          exact ⟨⟨h.inv, h.gt, h.lt, tableOk_set h.gtab hreg _, h.ltab, h.inFile, h.top⟩, Ext.refl _⟩⟩
       · exact ⟨by simp, fun st' x e => by
           cases e
-          exact ⟨⟨h.inv, h.sm, h.gt, h.lt, tableOk_set h.gtab hreg _, h.ltab, h.inFile, h.top⟩, Ext.refl _⟩⟩
+          exact ⟨⟨h.inv, h.gt, h.lt, tableOk_set h.gtab hreg _, h.ltab, h.inFile, h.top⟩, Ext.refl _⟩⟩
       · exact safe_ok h _
     | loc =>
       have hb := hr rfl
@@ -32,7 +32,7 @@ theorem insertConstant_safe {b : Bool} {st : St} (h : Good b st) (n : Bytes) (v 
       obtain ⟨l, hl⟩ := Option.isSome_iff_exists.mp (h.inFile rfl).1
       simp only [hl]
       have good' : ∀ w, Good true { st with locals := some (l.set n w) } := fun w =>
-        ⟨h.inv, h.sm, h.gt, h.lt, h.gtab, fun l' e => by
+        ⟨h.inv, h.gt, h.lt, h.gtab, fun l' e => by
           cases e; exact tableOk_set (h.ltab l hl) hreg _, fun _ => ⟨rfl, (h.inFile rfl).2⟩, fun e => by cases e⟩
       split
       · exact ⟨by simp, fun st' x e => by cases e; exact ⟨good' _, Ext.refl _⟩⟩
@@ -53,7 +53,7 @@ theorem deferConstant_safe {b : Bool} {st : St} (h : Good b st) (n : Bytes) (r :
       · exact safe_ok h _
       · exact ⟨by simp, fun st' x e => by
           cases e
-          exact ⟨⟨h.inv, h.sm, h.gt, h.lt, tableOk_set h.gtab hreg _, h.ltab, h.inFile, h.top⟩, Ext.refl _⟩⟩
+          exact ⟨⟨h.inv, h.gt, h.lt, tableOk_set h.gtab hreg _, h.ltab, h.inFile, h.top⟩, Ext.refl _⟩⟩
     | loc =>
       have hb := hr rfl
       subst hb
@@ -63,7 +63,7 @@ theorem deferConstant_safe {b : Bool} {st : St} (h : Good b st) (n : Bytes) (r :
       · exact safe_ok h _
       · exact ⟨by simp, fun st' x e => by
           cases e
-          exact ⟨⟨h.inv, h.sm, h.gt, h.lt, h.gtab, fun l' e => by
+          exact ⟨⟨h.inv, h.gt, h.lt, h.gtab, fun l' e => by
             cases e; exact tableOk_set (h.ltab l hl) hreg _, fun _ => ⟨rfl, (h.inFile rfl).2⟩, fun e => by cases e⟩, Ext.refl _⟩⟩
 
 /-- a successful `defer_constant(name, Global)`: the name is not a register and is now a valueless global -/
@@ -94,7 +94,7 @@ theorem addTask_safe {b : Bool} {st : St} (h : Good b st) (t : Task) (r : Realm)
     refine ⟨by simp [addTask], fun st' e => ?_⟩
     simp only [addTask, Out.ok.injEq] at e
     subst e
-    refine ⟨⟨h.inv, h.sm, ?_, h.lt, h.gtab, h.ltab, h.inFile, fun hb => ⟨(h.top hb).1, (h.top hb).2.1, ?_⟩⟩, fun _ x => x, ?_⟩
+    refine ⟨⟨h.inv, ?_, h.lt, h.gtab, h.ltab, h.inFile, fun hb => ⟨(h.top hb).1, (h.top hb).2.1, ?_⟩⟩, fun _ x => x, ?_⟩
     · intro t' ht'
       rcases List.mem_append.mp ht' with m | m
       · exact h.gt t' m
@@ -114,7 +114,7 @@ theorem addTask_safe {b : Bool} {st : St} (h : Good b st) (t : Task) (r : Realm)
     refine ⟨by simp [addTask, hl'], fun st' e => ?_⟩
     simp only [addTask, hl', Out.ok.injEq] at e
     subst e
-    refine ⟨⟨h.inv, h.sm, h.gt, ?_, h.gtab, h.ltab, fun _ => ⟨(h.inFile rfl).1, rfl⟩, fun e => by cases e⟩, Ext.refl _⟩
+    refine ⟨⟨h.inv, h.gt, ?_, h.gtab, h.ltab, fun _ => ⟨(h.inFile rfl).1, rfl⟩, fun e => by cases e⟩, Ext.refl _⟩
     intro l2 e t' ht'
     cases e
     rcases List.mem_append.mp ht' with m | m
@@ -164,32 +164,23 @@ theorem evalPanics_false (t : Table) (as : List Arg) : evalPanics t as = false :
 
 /-! ## regions -/
 
-theorem small_iff (s : Seg.State) : small s = true ↔ ∀ seg, s.active = some seg → seg.buf.length < 4294967296 := by
-  unfold small
-  cases h : s.active with
-  | none => simp
-  | some seg => simp
-
 /-- what `segStep` needs and gives, operations other than `rewrite` -/
 theorem segStep_nonrewrite {s : Seg.State} (inv : Seg.Inv s) (op : Seg.Op) (wf : Seg.Op.wf s op)
     (hop : ∀ a d, op ≠ .rewrite a d) :
     segStep s op ≠ .stop .panic ∧ ∀ s' o, segStep s op = .ok (s', o) →
-      (s', o) = Seg.step s op ∧ Seg.Inv s' ∧ small s' = true := by
+      (s', o) = Seg.step s op ∧ Seg.Inv s' := by
   have h := Seg.step_nonrewrite inv op wf hop
   unfold segStep
   split
   · rename_i hs; rw [hs] at h; exact absurd rfl h.1
   · rename_i s1 o1 _ hs
     rw [hs] at h
-    split
-    · rename_i hsm
-      exact ⟨by simp, fun s' o e => by cases e; exact ⟨hs.symm, h.2.1, hsm⟩⟩
-    · exact ⟨by simp, fun s' o e => by cases e⟩
+    exact ⟨by simp, fun s' o e => by cases e; exact ⟨hs.symm, h.2.1⟩⟩
 
-theorem segStep_rewrite {s : Seg.State} (inv : Seg.Inv s) (sm : small s = true) (addr : Nat) (d : Bytes)
+theorem segStep_rewrite {s : Seg.State} (inv : Seg.Inv s) (addr : Nat) (d : Bytes)
     (hp : (addr, d.length) ∈ s.pending) :
     segStep s (.rewrite addr d) ≠ .stop .panic ∧ ∀ s' o, segStep s (.rewrite addr d) = .ok (s', o) →
-      o = .ok ∧ Seg.Inv s' ∧ small s' = true ∧ s'.pending = s.pending := by
+      o = .ok ∧ Seg.Inv s' ∧ s'.pending = s.pending := by
   have h := Seg.rewrite_spec inv addr d hp
   unfold segStep
   have e : Seg.step s (.rewrite addr d) = Seg.rewrite s addr d := rfl
@@ -198,10 +189,7 @@ theorem segStep_rewrite {s : Seg.State} (inv : Seg.Inv s) (sm : small s = true) 
   · rename_i hs; rw [hs] at h; exact absurd h.1 (by simp)
   · rename_i s1 o1 _ hs
     rw [hs] at h
-    split
-    · rename_i hsm
-      exact ⟨by simp, fun s' o e => by cases e; exact ⟨h.1, h.2.1, hsm, h.2.2.2.2⟩⟩
-    · exact ⟨by simp, fun s' o e => by cases e⟩
+    exact ⟨by simp, fun s' o e => by cases e; exact ⟨h.1, h.2.1, h.2.2.2.2⟩⟩
 
 /-- where a statement stands with respect to the regions: placed (and recorded with its length), or not yet
 placed and standing at the cursor of the active region -/
@@ -219,10 +207,10 @@ theorem place_cases {s : Seg.State} {seg : Seg.Active} (inv : Seg.Inv s) (ha : s
   · left
     simp only [Seg.step, ha, f2, Seg.eta_active ha]
 
-theorem writeStmt_safe {s : Seg.State} (inv : Seg.Inv s) (sm : small s = true) (placed : Bool) (addr : Nat) (d : Bytes)
+theorem writeStmt_safe {s : Seg.State} (inv : Seg.Inv s) (placed : Bool) (addr : Nat) (d : Bytes)
     (hat : At s placed addr d.length) :
     writeStmt s placed addr d ≠ .stop .panic ∧ ∀ s' p' e, writeStmt s placed addr d = .ok (s', p', e) →
-      Seg.Inv s' ∧ small s' = true ∧ s.pending ⊆ s'.pending ∧ At s' p' addr d.length ∧ (e = none → p' = true) ∧
+      Seg.Inv s' ∧ s.pending ⊆ s'.pending ∧ At s' p' addr d.length ∧ (e = none → p' = true) ∧
       (placed = true → p' = true) := by
   unfold writeStmt
   cases placed with
@@ -233,16 +221,16 @@ theorem writeStmt_safe {s : Seg.State} (inv : Seg.Inv s) (sm : small s = true) (
     have hs := segStep_nonrewrite inv (.place d) trivial (fun _ _ h => by cases h)
     split
     · rename_i s1 e1 hs1
-      obtain ⟨he, hi, hm⟩ := hs.2 _ _ hs1
+      obtain ⟨he, hi⟩ := hs.2 _ _ hs1
       refine ⟨by simp, fun s' p' e hr => ?_⟩
       cases hr
       rcases place_cases inv ha d with h1 | ⟨s2, h1, _⟩
       · rw [h1] at he
         cases he
-        exact ⟨hi, hm, fun _ x => x, by simpa [At] using ⟨seg, ha, hcur⟩, fun e => (by cases e), fun e => (by cases e)⟩
+        exact ⟨hi, fun _ x => x, by simpa [At] using ⟨seg, ha, hcur⟩, fun e => (by cases e), fun e => (by cases e)⟩
       · rw [h1] at he; cases he
     · rename_i s1 o1 hne hs1
-      obtain ⟨he, hi, hm⟩ := hs.2 _ _ hs1
+      obtain ⟨he, hi⟩ := hs.2 _ _ hs1
       refine ⟨by simp, fun s' p' e hr => ?_⟩
       cases hr
       rcases place_cases inv ha d with h1 | ⟨s2, h1, hp⟩
@@ -251,7 +239,7 @@ theorem writeStmt_safe {s : Seg.State} (inv : Seg.Inv s) (sm : small s = true) (
         exact absurd rfl (hne _)
       · rw [h1] at he
         cases he
-        refine ⟨hi, hm, ?_, ?_, fun _ => rfl, fun _ => rfl⟩
+        refine ⟨hi, ?_, ?_, fun _ => rfl, fun _ => rfl⟩
         · rw [hp]; exact fun _ x => List.mem_cons_of_mem _ x
         · simp only [At, if_true, hp, hcur]; exact List.mem_cons_self
     · rename_i r hs1
@@ -262,25 +250,25 @@ theorem writeStmt_safe {s : Seg.State} (inv : Seg.Inv s) (sm : small s = true) (
     have hp : (addr, d.length) ∈ s.pending := by simpa [At] using hat
     have hc : (!true && s.active.isSome) = false := by simp
     rw [if_neg (by simp)]
-    have hs := segStep_rewrite inv sm addr d hp
+    have hs := segStep_rewrite inv addr d hp
     split
     · rename_i s1 e1 hs1
       obtain ⟨ho, _⟩ := hs.2 _ _ hs1
       cases ho
     · rename_i s1 o1 _ hs1
-      obtain ⟨_, hi, hm, hpe⟩ := hs.2 _ _ hs1
+      obtain ⟨_, hi, hpe⟩ := hs.2 _ _ hs1
       refine ⟨by simp, fun s' p' e hr => ?_⟩
       cases hr
-      exact ⟨hi, hm, by rw [hpe]; exact fun _ x => x, by simpa [At, hpe] using hp, fun _ => rfl, fun _ => rfl⟩
+      exact ⟨hi, by rw [hpe]; exact fun _ x => x, by simpa [At, hpe] using hp, fun _ => rfl, fun _ => rfl⟩
     · rename_i r hs1
       refine ⟨fun e => ?_, fun s' p' e hr => by cases hr⟩
       cases e
       exact hs.1 hs1
 
 /-- replacing the regions of a good state by regions that extend them -/
-theorem good_setSeg {b : Bool} {st : St} (h : Good b st) {s' : Seg.State} (inv : Seg.Inv s') (sm : small s' = true)
+theorem good_setSeg {b : Bool} {st : St} (h : Good b st) {s' : Seg.State} (inv : Seg.Inv s')
     (hp : st.seg.pending ⊆ s'.pending) : Good b { st with seg := s' } ∧ Ext st { st with seg := s' } :=
-  ⟨⟨inv, sm, fun t m => (h.gt t m).mono hp, fun l e t m => (h.lt l e t m).mono hp, h.gtab, h.ltab, h.inFile, h.top⟩,
+  ⟨⟨inv, fun t m => (h.gt t m).mono hp, fun l e t m => (h.lt l e t m).mono hp, h.gtab, h.ltab, h.inFile, h.top⟩,
    hp, fun _ m => .inl m⟩
 
 end Trion.Asm
